@@ -118,9 +118,14 @@ class GeckoSnapshot:
         (type_, self._config_version, self._log_version) = groups
 
     def _re_data(self, groups):
-        self._bytes = bytes(
-            bytearray([int(b.strip()[1:-1], 16) for b in groups[0].split(",")])
-        )
+        try:
+            self._bytes = bytes(
+                bytearray([int(b.strip()[1:-1], 16) for b in groups[0].split(",")])
+            )
+        except ValueError:
+            # Bracketed text that isn't a byte list, e.g. "[]" inside the repr
+            # of a traffic log's STATV segment
+            pass
 
     def _re_data_segment(self, groups):
         # The text is the inside of a bytes repr: a quote is either raw (repr used
